@@ -172,13 +172,18 @@ def run(ctx):
     for o in obs:
         for k in ("frames", "segs", "results"):
             o[k] = o.get(k) or []
+    # A connection that cannot be set up (real HEL/ACK exchange with frames that fit the buffers) is itself a
+    # failure of the property: a well-sized frame (the Hello / the Acknowledge) was not delivered.
     bad_setup = [o for o in obs if o.get("setup_error")]
-    if bad_setup:
-        ctx.broken_tie("could not set up loopback connections", [o["setup_error"] for o in bad_setup[:5]])
+    obs = [o for o in obs if not o.get("setup_error")]
+    if not obs and not bad_setup:
+        ctx.broken_tie("the harness produced no observation", "")
         return
 
     # (1) oracle: the property's statement on the implementation
     fails = []
+    for o in bad_setup:
+        fails.append(("handshake-frame-not-delivered", "HEL/ACK exchange failed although both frames fit the buffers (via %s, rbuf %d): %s" % (o["via"], o["rbuf"], o["setup_error"]), o))
     for o in obs:
         v = oracle(o)
         if v:
@@ -238,6 +243,7 @@ def run(ctx):
         "out_of_domain_cases_rbuf_lt_8": sum(1 for o in obs if o["rbuf"] < 8),
         "traces_validated_against_impl": len(lines),
         "model_impl_mismatches": len(mism),
+        "connection_setups_failed": len(bad_setup),
     })
     ctx.assumptions += [
         "in-order, loss-free byte delivery by the kernel's TCP and Go's net package (trusted)",
